@@ -12,9 +12,74 @@ static const double EPS = 2.220446049250313e-16;
 
 static double rd(const json& q) { return (double)q[0].get<int>() / (double)q[1].get<int>(); }
 
+namespace libphysica
+{
+// guarded verification hook in src/Numerics.cpp: the bracketing phase of Find_Minimum on its own, returns {ax, bx, cx, fa, fb, fc}
+std::vector<double> Verif_Bracket(std::function<double(double)> func, double a, double b);
+}
+
+// Bracketing phase against spec/Bracket.tla: positions and values as ranks (every decision of the code is a comparison)
+static int record_bracket(Rng& g, bool quick, Trace& T)
+{
+	int n = quick ? 1200 : 20000;
+	for(int i = 0; i < n; i++)
+	{
+		int fam	 = (int)g.range(0, 6);
+		double c = (g.coin() ? 1 : -1) * g.logu(1e-3, 1e3), s = g.logu(1e-3, 1e3), f0 = g.coin(0.3) ? 0.0 : g.uni(-5, 5), w = g.uni(2, 9);
+		std::function<double(double)> f;
+		switch(fam)
+		{
+			case 0: f = [=](double x) { double t = (x - c) / s; return f0 + t * t; }; break;
+			case 1: f = [=](double x) { double t = (x - c) / s; return f0 + t * t * t * t; }; break;
+			case 2: f = [=](double x) { double t = (x - c) / s; return f0 + std::cosh(std::max(-300.0, std::min(300.0, t))); }; break;
+			case 3: f = [=](double x) { double t = (x - c) / s; return f0 + std::sqrt(1.0 + t * t); }; break;
+			case 4: f = [=](double x) { double t = (x - c) / s; return f0 + 0.05 * t * t + std::sin(w * t); }; break;	  // many local minima
+			case 5: f = [=](double x) { double t = (x - c) / s; return f0 + std::fabs(t) + (t > 0 ? 2.0 * t : 0.0); }; break;	// kink, two slopes
+			default: f = [=](double x) { double t = std::floor((x - c) / s); return f0 + t * t; }; break;				  // staircase: many equal values
+		}
+		// starting abscissae: near or far from the minimiser (many step lengths away), either order, either side
+		double d = s * g.logu(1e-3, 1e3), xa = c + (g.coin() ? 1 : -1) * d, xb = xa + (g.coin() ? 1 : -1) * s * g.logu(1e-3, 30);
+		if(xa == xb)
+			continue;
+		std::vector<double> xs, fs;
+		std::function<double(double)> wrapped = [&](double x) { double v = f(x); xs.push_back(x); fs.push_back(v); return v; };
+		intent("Bracket fam " + std::to_string(fam));
+		std::vector<double> tr = Verif_Bracket(wrapped, xa, xb);
+		bool fin = true;
+		for(double v : fs)
+			fin = fin && std::isfinite(v);
+		for(double v : xs)
+			fin = fin && std::isfinite(v);
+		if(!fin || xs.size() > 400)
+			continue;	// (outside the quantifier: the objective overflowed far away from its minimum)
+		std::vector<double> ux(xs), uf(fs);
+		std::sort(ux.begin(), ux.end());
+		ux.erase(std::unique(ux.begin(), ux.end()), ux.end());
+		std::sort(uf.begin(), uf.end());
+		uf.erase(std::unique(uf.begin(), uf.end()), uf.end());
+		auto rank = [](const std::vector<double>& u, double v) {
+			auto it = std::lower_bound(u.begin(), u.end(), v);
+			return (it != u.end() && *it == v) ? (int)(it - u.begin()) + 1 : 0;	  // 0: not a recorded point / value
+		};
+		T.emit({{"e", "BStart"}, {"fam", fam}, {"k", (int)xs.size()}});
+		for(size_t k = 0; k < xs.size(); k++)
+			T.emit({{"e", "BEval"}, {"x", rank(ux, xs[k])}, {"f", rank(uf, fs[k])}});
+		T.emit({{"e", "BEnd"}, {"a", rank(ux, tr[0])}, {"b", rank(ux, tr[1])}, {"c", rank(ux, tr[2])}, {"fa", rank(uf, tr[3])}, {"fb", rank(uf, tr[4])}, {"fc", rank(uf, tr[5])}});
+	}
+	T.flush();
+	finished();
+	return 0;
+}
+
 int main(int argc, char** argv)
 {
 	guard_install(1500);
+	if(argc == 5 && std::string(argv[1]) == "bracket")
+	{
+		Rng g(std::strtoull(argv[2], nullptr, 10));
+		Trace T(argv[4]);
+		return record_bracket(g, std::string(argv[3]) == "quick", T);
+	}
 	if(argc != 6 || std::string(argv[1]) != "run")
 	{
 		finished();
